@@ -43,7 +43,7 @@ type CDeliv struct {
 // stream's own callbacks (which the property says are never concurrent); busy detects when they are.
 type StreamMon struct {
 	ID        int
-	Conn, Dir int // Dir = -1: the stream serves both directions (reassembly)
+	Conn, Dir int  // Dir = -1: the stream serves both directions (reassembly)
 	Gen       int  // generation (incarnation) the stream's key belongs to; -1 when the key is reused by every generation
 	Relaxed   bool // key reused across incarnations: bytes of an earlier incarnation may legitimately show up late, only ownership is checked
 	busy      int32
